@@ -329,7 +329,15 @@ class Driver:
                 self.reacted_set = "raised:" + type(exc).__name__
             entry[1] = self._seen()
         if self.raising_cb:
-            raise RuntimeError("callback raises (harness)")
+            # what escapes an application's callback is anything: its own bug (KeyError on an unknown node id, RuntimeError), or
+            # the refusal of a command it tried to send (ValueError, voluptuous.Invalid) - alert() must treat them all alike
+            import voluptuous as vol
+            import zlib
+            kinds = (RuntimeError, ValueError, KeyError, vol.Invalid, vol.MultipleInvalid, TypeError)
+            k = zlib.crc32(repr(self._msg_fields(msg)).encode("utf-8", "replace")) % len(kinds)
+            if kinds[k] is vol.MultipleInvalid:
+                raise vol.MultipleInvalid([vol.Invalid("callback raises (harness)")])
+            raise kinds[k]("callback raises (harness)")
 
     @staticmethod
     def _react_now(msg):
